@@ -684,6 +684,11 @@ func checkC03(c *Ctx) {
 		}
 		return s
 	}())
+	// one Decorator / Restorer / FileRestorer for several files (Reuse.tla), sources that are not canonical:
+	// tokens, commas and comments of every print against gofmt of the source
+	if !reuseCheck(c, c03ReuseSources, c03ReuseJudge, "c03reuse") {
+		return
+	}
 	c.Set("rule", "case = corpus file x formatting perturbation, decorated and printed by the real code; oracles: output parses, token stream equals gofmt(input)'s, comment texts conserved in order; non-trivial = not the identity perturbation; distinct by path+perturbation. Perturbed declaration snippets are also validated by TLC against Link.tla (NoPanic, AllAttached, RoundTrip).")
 }
 
@@ -787,4 +792,46 @@ func commaStream(src []byte) string {
 		sb.WriteByte(' ')
 	}
 	return sb.String()
+}
+
+// sources for Reuse.tla under C03: not gofmt-canonical, with trailing commas in front of closing brackets
+// on their own line (a comma gofmt keeps only while the line structure is kept)
+var c03ReuseSources = []string{
+	"package p\n\nvar x = []int{1, // one\n2, 3, // three\n}\n\nfunc f(a int, b int,\n) {\n\n\n  g(1, 2,\n)\n}\n",
+	"package p\n// doc\ntype T struct {\n  A int // a\n\n\n  B []string\n}\nfunc (t T) m( ) { switch t.A {\ncase 1:\n// c\n}\n}\n",
+	"package p\n\n/* b */ const c = 1\n\n\n\nvar (\n\ty = map[string]int{\n\"a\": 1,\n\n\"b\": 2,\n}\n)\n",
+}
+
+func c03ReuseJudge(src, out string) string {
+	want, err := format.Source([]byte(src))
+	if err != nil {
+		return ""
+	}
+	wt, wc, err1 := tokenStream(want)
+	gt, gc, err2 := tokenStream([]byte(out))
+	if err1 != nil || err2 != nil {
+		return fmt.Sprintf("does not scan: %v %v", err1, err2)
+	}
+	if ok, at := sameToks(wt, gt); !ok {
+		return fmt.Sprintf("has another token sequence than gofmt(source) (token %d): %s", at, diffAt(want, []byte(out)))
+	}
+	if strings.Join(wc, "\x00") != strings.Join(gc, "\x00") {
+		return "has other comments than gofmt(source): " + diffAt(want, []byte(out))
+	}
+	if commaStream(want) != commaStream([]byte(out)) {
+		return "has other commas than gofmt(source): " + diffAt(want, []byte(out))
+	}
+	return ""
+}
+
+func init() {
+	replayers["c03reuse"] = func(raw json.RawMessage) string {
+		var r struct{ Beh string }
+		json.Unmarshal(raw, &r)
+		var b reuseBeh
+		if json.Unmarshal([]byte(r.Beh), &b) != nil {
+			return ""
+		}
+		return reuseReplayWith(b, c03ReuseSources, c03ReuseJudge)
+	}
 }
